@@ -142,7 +142,9 @@ PROPS["C11"] = {
 PROPS["C16"] = {
     "skeleton_fns": CLUSTER + PLANNER + ["httpserver_Config_Equal"],
     "lean_modules": ["GoSup.Props.C16"],
-    "theorems": ["GoSup.Props.C16.commit_clean", "GoSup.Props.C16.processExisting_cases", "GoSup.Props.C16.plan_fails_with_clash"],
+    "theorems": ["GoSup.Props.C16.commit_clean", "GoSup.Props.C16.processExisting_cases", "GoSup.Props.C16.plan_unchanged",
+                 "GoSup.Props.C16.plan_changed_running", "GoSup.Props.C16.plan_removed_running", "GoSup.Props.C16.plan_no_leak",
+                 "GoSup.Props.C16.plan_fails_with_clash"],
     "ties": [],
     "legs": [{"name": "planner", "cmd": "planner"}, {"name": "cluster", "cmd": "cluster"}],
     "rule": "planner (newEntries/buildPendingEntries/getPendingActions/commit through the verif export) on seeded (current, desired) "
@@ -156,7 +158,10 @@ PROPS["C16"] = {
             "Spec.Cluster.holds; every history is also replayed on the Lean update model (Cluster.applyUpdate over the planner).",
     "assumptions": [],
     "trusted_base": [],
-    "level_text": "Theorems about the diff planner over finite maps of any size under the NoClash precondition; cluster model.",
+    "level_text": "Theorems about the diff planner (buildPendingEntries as a sequence of map assignments) for maps of any size and "
+                  "any iteration order under the NoClash precondition: unchanged entries are carried over untouched with their "
+                  "instance, changed running entries get a stop entry under id:stop and a fresh start entry, removed running "
+                  "entries get a stop entry, hence no running instance leaks; commit leaves no pending work; the clash witness.",
     "level_note": COMMON_NOTE,
     "design_ref": "DESIGN.md section 5, C16",
 }
